@@ -27,7 +27,7 @@ func c07process(ctx *Ctx) {
 	}
 	var terms []string
 	for hi := 0; hi < nHist; hi++ {
-		N := []int{2, 3, 5, 8}[r.Intn(4)]
+		N := []int{2, 3, 5, 8, 5, 8, 9}[r.Intn(7)]
 		k1 := cfgKeyC{ID: "k1", Cipher: 0, Secret: 1}
 		k1b := cfgKeyC{ID: "k1", Cipher: 0, Secret: 1} // the same access key configured in another service
 		kx := cfgKeyC{ID: "other-id", Cipher: 0, Secret: 1}
@@ -94,6 +94,12 @@ func c07process(ctx *Ctx) {
 				var ss uint32
 				if len(salts) > 0 && r.Chance(55) {
 					back := 1 + r.Intn(min(len(salts), N+3))
+					if r.Chance(45) && len(salts) >= N { // at the far edge of the promised history
+						back = N - r.Intn(2)
+						if back < 1 {
+							back = 1
+						}
+					}
 					ss = salts[len(salts)-back]
 				} else {
 					nextSalt++
